@@ -578,6 +578,11 @@ func findIIFEs(pkgs map[string]*packages.Package) []iifeSite {
 						if len(s.Results) == 1 {
 							if fl := iife(s.Results[0]); fl != nil {
 								out = append(out, iifeSite{pkg: pk, file: f, stmt: s, lit: fl, isRet: true})
+							} else if ce, ok := ast.Unparen(s.Results[0]).(*ast.CallExpr); ok && len(ce.Args) > 0 {
+								// return func(p T) R {…}(a): the arguments are bound first
+								if fl, ok := ast.Unparen(ce.Fun).(*ast.FuncLit); ok {
+									out = append(out, iifeSite{pkg: pk, file: f, stmt: s, lit: fl, spawn: ce, spawnKw: "return"})
+								}
 							}
 						}
 					case *ast.IfStmt:
